@@ -45,6 +45,13 @@ func startSession(e *Env, o ClientOpts, plan func(l *simnet.Link)) *session {
 		e.S.Spawn(fmt.Sprintf("server%d", l.ID), func() {
 			reg, ok := Registration(l, time.Hour)
 			s.regs = reg
+			for _, ln := range reg {
+				// whatever a handler sent while the client was still registering
+				if !strings.HasPrefix(ln, "NICK ") && !strings.HasPrefix(ln, "USER ") && !strings.HasPrefix(ln, "PASS ") && !strings.HasPrefix(ln, "CAP ") {
+					s.lines = append(s.lines, ln)
+					s.from = append(s.from, l.ID)
+				}
+			}
 			if !ok {
 				return
 			}
@@ -185,6 +192,20 @@ func sendOrder(e *Env) {
 			s.c.Handle("NOTICE", h)
 		case 2:
 			s.c.HandleBG("NOTICE", h)
+		}
+	}
+	// the server may speak first: the trigger of a handler-driven sender arrives
+	// the moment the connection is accepted, so its lines are handed over while
+	// Connect is still finishing
+	for _, sd := range senders {
+		sd := sd
+		if sd.kind != 0 && g.Pct(25) {
+			e.S.Count("fault.handler-sends-while-connect-is-finishing")
+			orig := e.OnDial
+			e.OnDial = func(l *simnet.Link) {
+				orig(l)
+				l.SendLine(fmt.Sprintf(":u!u@h NOTICE me :go%d", sd.id))
+			}
 		}
 	}
 	if !s.connect() {
